@@ -666,3 +666,89 @@ def stream_lifecycle(rng, n, work):
 
 
 STREAMS["lifecycle"] = stream_lifecycle
+
+
+# ----------------------------------------------------------------------------------------------- S7 instrument_file on real files
+def _enc(s):
+    return "".join(ch if 32 <= ord(ch) < 127 and ch != "\\" else ("\\n" if ch == "\n" else ("\\\\" if ch == "\\" else "?")) for ch in s)
+
+
+def stream_files(rng, n, work):
+    from dynapyt.instrument.instrument import instrument_file
+
+    h, leaves = impl.all_leaf_hooks()
+    d = work.sub("files")
+    cases, coq_cases = [], []
+    stats = {"accepted": 0, "declined_syntax": 0, "already_marked": 0, "undecodable": 0, "json_preexisting": 0, "nothing_to_instrument": 0}
+    sources = ["x = 1\n", "def f(a):\n    return a + 1\nprint(f(2))\n", "from __future__ import annotations\ny: int = 3\n", "import os\n", "pass\n", "s = 'DYNAPYT'\n"]
+    for ci in range(n):
+        cd = d / ("c%d" % ci)
+        cd.mkdir()
+        kind = rng.choice(["ok", "ok", "ok", "syntax", "marked", "undecodable", "nothing"])
+        py = cd / "m.py"
+        hooks = {l: {} for l in (leaves if rng.random() < 0.5 else rng.sample(leaves, rng.randrange(1, 8)))}
+        undec = False
+        if kind == "ok":
+            py.write_text(rng.choice(sources))
+        elif kind == "syntax":
+            py.write_text("def f(:\n  x = = 1\n")
+        elif kind == "marked":
+            py.write_text("# DYNAPYT: DO NOT INSTRUMENT\n\nx = 1\n" if rng.random() < 0.5 else "s = 'DYNAPYT: DO NOT INSTRUMENT'\n")
+        elif kind == "undecodable":
+            py.write_bytes(b"x = '\xff\xfe'\n")
+            undec = True
+        else:
+            py.write_text("import os\n")
+            hooks = {"integer": {}}
+        pre_json = rng.random() < 0.3
+        if pre_json:
+            (cd / "m-dynapyt.json").write_text(json.dumps({"next_iid": 3, "iid_to_location": {}}))
+            stats["json_preexisting"] += 1
+        pre_orig = rng.random() < 0.15
+        if pre_orig:
+            (cd / "m.py.orig").write_text("old original\n")
+
+        def snap():
+            out = []
+            for code, name in ((0, "m.py"), (1, "m.py.orig"), (2, "m-dynapyt.json")):
+                p = cd / name
+                if p.exists():
+                    b = p.read_bytes()
+                    try:
+                        out.append((code, _enc(b.decode("utf-8"))))
+                    except UnicodeDecodeError:
+                        out.append((code, "UNDECODABLE"))
+            return out
+
+        before = snap()
+        buf = io.StringIO()
+        try:
+            with contextlib.redirect_stdout(buf):
+                ret = instrument_file(str(py), hooks)
+            raised = None
+        except BaseException as e:
+            ret, raised = "raised", repr(e)
+        after = snap()
+        tr = None
+        if ret is None:
+            text = dict(after)[0]
+            assert text.startswith("# DYNAPYT: DO NOT INSTRUMENT")
+            tr = (text[len("# DYNAPYT: DO NOT INSTRUMENT"):], dict(after)[2])
+            stats["accepted"] += 1
+            if "_rt" not in text:
+                stats["nothing_to_instrument"] += 1
+        else:
+            stats["declined_syntax" if kind == "syntax" else ("already_marked" if kind == "marked" else ("undecodable" if undec else "accepted"))] += 0 if kind == "ok" else 1
+        rc = {0: 0, 1: 1, None: 2}.get(ret, 9)
+        cases.append({"kind": kind, "ret": repr(ret), "raised": raised, "before": [b[0] for b in before], "after": [a[0] for a in after], "pre_json": pre_json, "pre_orig": pre_orig, "hooks": len(hooks)})
+        for f in cd.iterdir():
+            f.unlink()
+        cd.rmdir()
+        cl = lambda l: clist(["(%d, %s)" % (c, cstr(v)) for c, v in l])
+        coq_cases.append("(%s, (%s, (%s, (%d, %s))))" % (cl(before), cbool(not undec), ("None" if tr is None else "(Some (%s, %s))" % (cstr(tr[0]), cstr(tr[1]))), rc, cl(after)))
+    coq = "Definition cases : list (list (nat * string) * (bool * (option (string * string) * (nat * list (nat * string))))) :=\n  %s.\n" % clist(coq_cases)
+    coq += "Eval vm_compute in failing ok_files cases.\n"
+    return {"name": "files", "cases": cases, "coq": coq, "dist": stats, "impl_failures": sum(1 for c in cases if c["raised"])}
+
+
+STREAMS["files"] = stream_files
